@@ -83,6 +83,68 @@ pub fn transcript_bytes(book: &Book, toks: &[Tok]) -> Option<Vec<u8>> {
     Some(out)
 }
 
+/// the model's transcript answer as one byte string per item
+pub fn transcript_items(book: &Book, toks: &[Tok]) -> Option<Vec<Vec<u8>>> {
+    let mut out = vec![];
+    let mut i = 1;
+    while i < toks.len() {
+        let kind = if let Tok::V(k) = &toks[i] { k.clone() } else { return None };
+        out.push(match (kind.as_str(), toks.get(i + 1)?) {
+            ("s", Tok::S(x)) => wire::enc_s(x),
+            ("g1", Tok::S(x)) => wire::enc_g1(book, x),
+            ("g2", Tok::S(x)) => wire::enc_g2(book, x),
+            ("x", Tok::X(b)) => b.clone(),
+            _ => return None,
+        });
+        i += 2;
+    }
+    Some(out)
+}
+
+pub enum TMatch {
+    /// the recorded bytes are the model's items in the model's order
+    Exact,
+    /// … the same items in another order (`L[j]` = model index of the j-th item hashed); the binding
+    /// theorems hold for every such layout (`*_transcript_binds_layout`), `layoutCovers` evaluated by the driver
+    Layout(Vec<usize>),
+    /// the recorded bytes parse as model items, but these items are not hashed at all
+    Omits(Vec<usize>),
+    No,
+}
+
+/// Compare what the implementation hashed with the model's transcript, up to the order of the items.
+pub fn match_transcript(ctx: &mut Ctx, toks: &[Tok], recorded: &[u8]) -> TMatch {
+    let book = ctx.book.clone();
+    let items = match transcript_items(&book, toks) { Some(i) => i, None => return TMatch::No };
+    if items.concat() == recorded { return TMatch::Exact; }
+    // locate each hashed item by value (longest match first; equal encodings are interchangeable)
+    let mut used = vec![false; items.len()];
+    let mut layout: Vec<usize> = vec![];
+    let mut o = 0usize;
+    while o < recorded.len() {
+        let mut best: Option<usize> = None;
+        for (k, e) in items.iter().enumerate() {
+            if used[k] || e.is_empty() || !recorded[o..].starts_with(e) { continue; }
+            if best.map(|b| items[b].len() < e.len()).unwrap_or(true) { best = Some(k); }
+        }
+        match best {
+            Some(k) => { used[k] = true; layout.push(k); o += items[k].len(); }
+            None => return TMatch::No,
+        }
+    }
+    for (k, e) in items.iter().enumerate() { if !used[k] && e.is_empty() { used[k] = true; layout.push(k); } }
+    let l: Vec<String> = layout.iter().map(|i| format!("{:x}", i)).collect();
+    let ans = ctx.model.raw(&format!("layout-covers {} {:x}", if l.is_empty() { "-".to_string() } else { l.join(",") }, items.len()));
+    ctx.evals += 1;
+    if ans == "b:1" {
+        let note = "the implementation hashes the model's items in another order than the model's default; binding holds for every covering layout (C12.*_transcript_binds_layout), coverage evaluated by the driver".to_string();
+        if !ctx.notes.contains(&note) { ctx.notes.push(note); }
+        TMatch::Layout(layout)
+    } else {
+        TMatch::Omits((0..items.len()).filter(|k| !used[*k]).collect())
+    }
+}
+
 /// atoms of an establish proof (scalars and discrete logs)
 #[derive(Clone, Debug)]
 pub struct EstD {
@@ -124,7 +186,21 @@ impl Agreed {
         };
         let n = match ctx.prng.gen_range(0..5) { 0 => 32, 1 => 64, _ => ctx.prng.gen_range(0..40) };
         let ctx_bytes: Vec<u8> = (0..n).map(|_| ctx.prng.gen()).collect();
-        Agreed { cid, cid_s: zkabacus_crypto::verif_hooks::channel_id_to_scalar(cid), cb: pick(ctx), mb: pick(ctx), ctx_bytes }
+        let cid_s = cid_scalar(&b);
+        // the real conversion must be the 256-bit little-endian integer reduced mod q (independent evaluation)
+        ctx.evals += 1;
+        if zkabacus_crypto::verif_hooks::channel_id_to_scalar(cid) != cid_s {
+            ctx.count("channel-id-scalar:MISMATCH");
+            ctx.disagreements.push(json!({"kind": "model-vs-implementation", "case": ctx.case_id, "what": "ChannelId::to_scalar is not the 256-bit little-endian integer of the id reduced mod q", "channel_id": hex::encode(b)}));
+        }
+        Agreed { cid, cid_s, cb: pick(ctx), mb: pick(ctx), ctx_bytes }
+    }
+    /// the same agreed values under another channel id (given as bytes)
+    pub fn with_cid(&self, b: &[u8; 32]) -> Agreed {
+        let mut a = self.clone();
+        a.cid = wire::de(b).expect("channel id");
+        a.cid_s = cid_scalar(b);
+        a
     }
     pub fn context(&self) -> Context {
         Context::new(&self.ctx_bytes)
@@ -135,6 +211,23 @@ impl Agreed {
 }
 
 /// the customer's side of establish, with everything the harness can learn about it
+/// `ChannelId::to_scalar` evaluated independently: the id's 32 bytes as a little-endian integer, mod q
+pub fn cid_scalar(b: &[u8; 32]) -> Scalar {
+    let limb = |i: usize| { let mut a = [0u8; 8]; a.copy_from_slice(&b[8 * i..8 * i + 8]); u64::from_le_bytes(a) };
+    Scalar::from_raw([limb(0), limb(1), limb(2), limb(3)])
+}
+
+/// channel ids close to `b`: single-bit flips at both ends, in the middle, and in the two top bits
+pub fn near_cids(b: &[u8; 32]) -> Vec<(&'static str, [u8; 32])> {
+    let mut v = vec![];
+    for (what, byte, mask) in [("bit-0", 0usize, 1u8), ("bit-127", 15, 0x80), ("bit-248", 31, 0x01), ("bit-253", 31, 0x20), ("bit-254", 31, 0x40), ("bit-255", 31, 0x80), ("bits-254-255", 31, 0xc0)] {
+        let mut x = *b;
+        x[byte] ^= mask;
+        if cid_scalar(&x) != cid_scalar(b) { v.push((what, x)); }
+    }
+    v
+}
+
 pub struct EstRun {
     pub requested: customer::Requested,
     pub proof: EstablishProof,
@@ -229,12 +322,21 @@ pub fn check_est_transcript(ctx: &mut Ctx, w: &World, a: &Agreed, d: &EstD, reco
     let op = format!("est-transcript {} {} {} {} 0", pk_args(&w.kpd.pk), a.pub_args(), d.args(), hex::encode(digest));
     let toks = ctx.ask(&op);
     ctx.evals += 1;
-    match transcript_bytes(&book, &toks) {
-        Some(b) if b == recorded => {
+    match match_transcript(ctx, &toks, recorded) {
+        TMatch::Exact => {
             ctx.count(&format!("transcript:{}:match", who));
             true
         }
-        _ => {
+        TMatch::Layout(_) => {
+            ctx.count(&format!("transcript:{}:match-under-another-layout", who));
+            true
+        }
+        TMatch::Omits(missing) => {
+            ctx.count(&format!("transcript:{}:OMITS-ITEMS", who));
+            ctx.disagreements.push(json!({"kind": "model-vs-implementation", "case": ctx.case_id, "what": format!("the establish transcript hashed by the {} omits item(s) {:?} of the model's transcript (not bound by the challenge)", who, missing), "op": op, "recorded": hex::encode(recorded)}));
+            false
+        }
+        TMatch::No => {
             ctx.count(&format!("transcript:{}:MISMATCH", who));
             // is it the pinned (legacy) layout?
             let op = format!("est-transcript {} {} {} {} 1", pk_args(&w.kpd.pk), a.pub_args(), d.args(), hex::encode(digest));
